@@ -218,6 +218,38 @@ def _all_v_files() -> List[str]:
     return sorted(out)
 
 
+_REQ_RE = re.compile(r'(?:From\s+(HailV|HailG)\s+)?Require\s+(?:Import\s+|Export\s+)?([^.]*(?:\.[A-Za-z_][^.\s]*)*)\s*\.(?=\s|$)')
+
+
+def dependency_closure(root_rel: str) -> List[str]:
+    """Files of the development (theories/ + generated/) that `root_rel` transitively Requires (textual scan)."""
+    seen: List[str] = []
+    todo = [root_rel]
+    while todo:
+        rel = todo.pop()
+        if rel in seen:
+            continue
+        path = os.path.join(COQ, rel)
+        if not os.path.exists(path):
+            continue
+        seen.append(rel)
+        src = _strip_coq_comments(open(path).read())
+        for m in re.finditer(r'(?:From\s+(HailV|HailG)\s+)?Require\s+(?:Import\s+|Export\s+)?((?:[\w\']+(?:\.[\w\']+)*\s*)+)\.', src):
+            prefix = m.group(1)
+            for mod in m.group(2).split():
+                parts = mod.split('.')
+                if parts[0] in ('HailV', 'HailG'):
+                    pre, parts = parts[0], parts[1:]
+                elif prefix:
+                    pre = prefix
+                else:
+                    continue
+                cand = os.path.join('theories' if pre == 'HailV' else 'generated', *parts) + '.v'
+                if os.path.exists(os.path.join(COQ, cand)):
+                    todo.append(cand)
+    return sorted(seen)
+
+
 def audit_sources(files: Sequence[str]) -> List[str]:
     """Forbidden vernacular in the development (comments stripped). Section-local Variable/Hypothesis are allowed
     only inside a Section; we check that textually."""
@@ -592,7 +624,15 @@ def load_known(pid: str) -> List[dict]:
     if not os.path.exists(path):
         return []
     data = json.load(open(path))
-    return [e for e in data.get('findings', []) if e.get('property') == pid]
+    out = [e for e in data.get('findings', []) if e.get('property') == pid]
+    # proposals not yet merged (committed files too; never written at run time)
+    prop = os.path.join(VERIF, 'findings', f'{pid}.json')
+    if os.path.exists(prop):
+        extra = json.load(open(prop))
+        extra = extra if isinstance(extra, list) else extra.get('findings', [extra])
+        keys = {e.get('key') for e in out}
+        out += [e for e in extra if e.get('property') == pid and e.get('key') not in keys]
+    return out
 
 
 def stable_hash(obj: Any) -> str:
